@@ -223,6 +223,10 @@ def main(out_v, out_json):
           and ".await" not in rrb[:rrb.find("let mut turn = Requeue")] else 0, "syntax")
     g.put("rr_guard_disarmed_on_error", 1 if rrb and re.search(r"Err\(e\) => \{\s*turn\.peer_id = None;\s*self\.peer_disconnected\(&next_peer_id\);", rrb)
           and re.search(r"None => \{\s*turn\.peer_id = None;\s*continue;", rrb) else 0, "syntax")
+    # the rotation holds an identity at most once (a re-joining peer takes over the entry that is still queued), in the
+    # generic backend and in REQ's
+    g.put("rr_queue_holds_identity_once", 1 if re.search(r"pub\(crate\) fn push\(&self, peer_id: PeerIdentity\) \{\s*let mut queue = self\.0\.lock\(\);\s*if !queue\.contains\(&peer_id\) \{\s*queue\.push_back\(peer_id\);", besrc) else 0, "syntax")
+    g.put("rr_backends_use_that_queue", 1 if re.search(r"pub\(crate\) round_robin: RoundRobin,", besrc) and re.search(r"pub\(crate\) round_robin: RoundRobin,", rd("src/req.rs")) else 0, "syntax")
     clr = fn_body(fqsrc, r"pub fn clear\(&mut self\)")
     g.put("queue_clear_drops_streams", 1 if clr and re.search(r"self\.streams\.clear\(\)", clr) else 0, "syntax")
     drops = 0
